@@ -33,6 +33,9 @@ enum Dev {
     DupElem,
     DropTag,
     AddSetTag,
+    /// a set with all its elements removed: a present-but-empty field (another value, which the decoder
+    /// accepts; its bytes are to be preserved like any other field's)
+    Emptied,
 }
 
 fn dev_kind(d: &Dev) -> &'static str {
@@ -45,6 +48,7 @@ fn dev_kind(d: &Dev) -> &'static str {
         Dev::DupElem => "dev:repeated-element",
         Dev::DropTag => "dev:set-tag-dropped",
         Dev::AddSetTag => "dev:set-tag-added",
+        Dev::Emptied => "dev:emptied-set",
     }
 }
 
@@ -78,6 +82,7 @@ fn menu(n: &Node) -> Vec<Dev> {
             // makes another (invalid) shape, whose acceptance is C02's recorded finding
             if !a.is_empty() && n.start == SET_MARK {
                 v.push(Dev::DupElem);
+                v.push(Dev::Emptied);
             }
             v.push(Dev::AddSetTag);
         }
@@ -146,6 +151,12 @@ fn apply_dev(mut n: Node, d: &Dev) -> Node {
             _ => n,
         },
         Dev::AddSetTag => Node::tag(258, n),
+        Dev::Emptied => {
+            if let Kind::Array(a) = &mut n.kind {
+                a.clear();
+            }
+            n
+        }
     }
 }
 
@@ -669,6 +680,7 @@ fn sc_fixed_tx(max_ops: usize) -> impl Fn(&mut Ctx) + Sync {
                 "dev:duplicate-map-key" => "accepted:duplicate-map-key",
                 "dev:repeated-element" => "accepted:repeated-element",
                 "dev:set-tag-dropped" => "accepted:set-tag-dropped",
+                "dev:emptied-set" => "accepted:emptied-set",
                 _ => "accepted:set-tag-added",
             });
         }
@@ -1036,7 +1048,7 @@ pub fn scenario(name: &str, tier: Tier) -> Option<BoxedScenario> {
 
 pub fn run(tier: Tier, seed: u64) -> i32 {
     let mut rep = Report::new(P, tier, seed);
-    rep.rule = "fixed_tx: 5 base transactions (the pre-Alonzo 3-element layout with metadata; minimal; full Conway body + all 8 witness fields + tag-259 auxiliary data, sets tagged; the same untagged with is_valid=false; legacy array redeemers + Shelley metadata, witness keys out of order) as refcbor trees x every tree with <= B encoding deviations (menu per node: each wider head, indefinite container, string in 1 / 2 chunks / with an empty first chunk, adjacent map entries swapped, map entry repeated, array element repeated, set tag dropped / added) x load path {from_bytes, from_hex, new/new_with_auxiliary from the cut-out parts, new_from_body_bytes from the body span alone} x every history of <= L operations over {add_vkey_witness new x2 / already present, sign_and_add_vkey_signature, add_bootstrap_witness new / present, sign icarus, sign daedalus, set_body (another body / another encoding of the same body), set_auxiliary_data, set_is_valid, set_witness_set}. After load and after every operation: raw_body, raw_auxiliary_data, transaction_hash, and in to_bytes the body span, the auxiliary span, is_valid and every untouched witness field's value span are the input's bytes (or the setter's argument); a touched field holds the old elements then the new ones once each; signatures added by the sign helpers verify (cryptoxide) over Blake2b-256 of the current raw body; the output reloads to itself. datum: 7 base datums x <= B deviations x 7 containers (stand-alone + from_hex, PlutusList definite/indefinite, witness set, redeemer, inline datum of an output, plain Transaction): the datum's bytes come back verbatim and hash_plutus_data == Blake2b-256(input). block: the two rich bodies x <= B deviations inside a block: FixedBlock/FixedTransactionBody original_bytes and tx_hash.".into();
+    rep.rule = "fixed_tx: 5 base transactions (the pre-Alonzo 3-element layout with metadata; minimal; full Conway body + all 8 witness fields + tag-259 auxiliary data, sets tagged; the same untagged with is_valid=false; legacy array redeemers + Shelley metadata, witness keys out of order) as refcbor trees x every tree with <= B encoding deviations (menu per node: each wider head, indefinite container, string in 1 / 2 chunks / with an empty first chunk, adjacent map entries swapped, map entry repeated, array element repeated, set emptied, set tag dropped / added) x load path {from_bytes, from_hex, new/new_with_auxiliary from the cut-out parts, new_from_body_bytes from the body span alone} x every history of <= L operations over {add_vkey_witness new x2 / already present, sign_and_add_vkey_signature, add_bootstrap_witness new / present, sign icarus, sign daedalus, set_body (another body / another encoding of the same body), set_auxiliary_data, set_is_valid, set_witness_set}. After load and after every operation: raw_body, raw_auxiliary_data, transaction_hash, and in to_bytes the body span, the auxiliary span, is_valid and every untouched witness field's value span are the input's bytes (or the setter's argument); a touched field holds the old elements then the new ones once each; signatures added by the sign helpers verify (cryptoxide) over Blake2b-256 of the current raw body; the output reloads to itself. datum: 7 base datums x <= B deviations x 7 containers (stand-alone + from_hex, PlutusList definite/indefinite, witness set, redeemer, inline datum of an output, plain Transaction): the datum's bytes come back verbatim and hash_plutus_data == Blake2b-256(input). block: the two rich bodies x <= B deviations inside a block: FixedBlock/FixedTransactionBody original_bytes and tx_hash.".into();
     rep.assume("only inputs the decoder accepts are judged (rejecting an encoding is C01/C02's subject); per deviation kind at least one accepted input is required (required_hits), so acceptance is not vacuous");
     rep.assume("the order of witness-set keys in the output and the encoding of a touched signature field are not constrained by the property");
     rep.trusted_base = vec!["harness/src/refcbor.rs (spans)".into(), "cryptoxide blake2b / ed25519".into()];
